@@ -108,10 +108,18 @@ def _cost(x):
     return float(x) if "." in x else int(x)
 
 
-def parse_spec(spec):
-    """spec: class words as in the Lean driver. Returns a zero-argument constructor."""
+def parse_spec(spec, np_ints=False):
+    """spec: class words as in the Lean driver. Returns a zero-argument constructor.  `np_ints`: every integer
+    argument is handed over as a numpy integer (what a client computing its sizes with numpy passes)."""
     w = spec.split()
     k = w[0]
+    if np_ints:
+        import numpy
+
+        def I(x):       # noqa: E743
+            return numpy.int64(int(x))
+    else:
+        I = int         # noqa: E741
     if k == "SM":
         return lambda: cs.SingleMemoryStorageSchedule()
     if k == "SD":
@@ -120,18 +128,18 @@ def parse_spec(spec):
         return lambda: cs.NoneCheckpointSchedule()
     if k == "TL":
         return lambda: cs.TwoLevelCheckpointSchedule(
-            int(w[1]), int(w[2]), binomial_storage=ST_OF[w[3]], binomial_trajectory=w[4])
+            I(w[1]), I(w[2]), binomial_storage=ST_OF[w[3]], binomial_trajectory=w[4])
     if k == "MS":
-        return lambda: cs.MultistageCheckpointSchedule(int(w[1]), int(w[2]), int(w[3]), trajectory=w[4])
+        return lambda: cs.MultistageCheckpointSchedule(I(w[1]), I(w[2]), I(w[3]), trajectory=w[4])
     if k == "MX":
         def mk():
-            return cs.MixedCheckpointSchedule(int(w[1]), int(w[2]), storage=ST_OF[w[3]])
+            return cs.MixedCheckpointSchedule(I(w[1]), I(w[2]), storage=ST_OF[w[3]])
         return mk
     if k in ("RV", "DR", "PD"):
         cls = {"RV": cs.Revolve, "DR": cs.DiskRevolve, "PD": cs.PeriodicDiskRevolve}[k]
-        return lambda: cls(int(w[1]), int(w[2]), *[_cost(x) for x in w[3:7]])
+        return lambda: cls(I(w[1]), I(w[2]), *[_cost(x) for x in w[3:7]])
     if k == "HR":
-        return lambda: cs.HRevolve(int(w[1]), int(w[2]), int(w[3]), *[_cost(x) for x in w[4:8]])
+        return lambda: cs.HRevolve(I(w[1]), I(w[2]), I(w[3]), *[_cost(x) for x in w[4:8]])
     raise ValueError(spec)
 
 
@@ -219,18 +227,42 @@ def canon_trace(spec, nfin, k, max_actions=2000000):
     buf = io.StringIO()
     with contextlib.redirect_stdout(buf), forced_numba(spec):
         company = _disturbers(spec) if os.environ.get("VERIF_NO_COMPANY") != "1" else []
+        # every fifth configuration receives its integer arguments (and the argument of finalize) as numpy integers
+        np_mode = sum(map(ord, spec)) % 5 == 2 and os.environ.get("VERIF_NO_COMPANY") != "1"
+        if np_mode:
+            import numpy
+            nfin_arg = numpy.int64(nfin)
+        else:
+            nfin_arg = nfin
         try:
-            o = parse_spec(spec)()
+            o = parse_spec(spec, np_ints=np_mode)()
         except Exception as e:
             return ["X construct " + exc_name(e)]
         lines.append("I " + flags(o))
         lines.append(uses_line(o))
+        if os.environ.get("VERIF_NO_COMPANY") != "1" and sum(map(ord, spec)) % 4 == 1:
+            # a client peeks at the first action through a shallow copy of the not yet started schedule: the
+            # original must not notice
+            try:
+                import copy
+                next(copy.copy(o))
+            except Exception:
+                pass
+        # every fourth configuration has a JOURNALLING client: it keeps the action objects it receives and reads
+        # them only after the run (the text of an action is taken at the end, not on receipt)
+        journal = [] if (os.environ.get("VERIF_NO_COMPANY") != "1" and (sum(map(ord, spec)) + nfin) % 4 == 3) else None
         seen = 0
         used_ef = False
         count = 0
         # every third configuration is driven through `for` loops (one per phase) instead of bare next() calls
         loop_mode = (sum(map(ord, spec)) + nfin) % 3 == 0 and os.environ.get("VERIF_NO_COMPANY") != "1"
         phase_it = None
+        # every other configuration has a NOISY client: it polls `finalize(nfin)` after every action although the
+        # forward has not been told to reach nfin yet, tries `finalize(0)`, and repeats the accepted call once — calls
+        # that are rejected (RuntimeError / ValueError, caught) or are no-ops by C10; the object is used on as if
+        # nothing had happened, so the trace must be the canonical one
+        noisy = (sum(map(ord, spec)) + nfin) % 2 == 1 and os.environ.get("VERIF_NO_COMPANY") != "1"
+        repeated = False
         while True:
             count += 1
             if count > max_actions:
@@ -264,9 +296,28 @@ def canon_trace(spec, nfin, k, max_actions=2000000):
                 lines.append("B " + exc_name(e))
                 lines.append(uses_line(o))
                 break
+            if noisy and count <= 400:
+                try:
+                    if o.max_n is None and o.n < nfin:
+                        o.finalize(nfin_arg)       # too early: rejected
+                        lines.append("B premature-finalize-accepted")
+                except (RuntimeError, ValueError):
+                    pass
+                except Exception as e:
+                    lines.append("B finalize-" + exc_name(e))
+                try:
+                    o.finalize(0)                  # never valid
+                    lines.append("B finalize-0-accepted")
+                except (RuntimeError, ValueError):
+                    pass
+                except Exception as e:
+                    lines.append("B finalize-" + exc_name(e))
             try:
                 if o.max_n is None and o.n >= nfin:
-                    o.finalize(nfin)
+                    o.finalize(nfin_arg)
+                    if noisy and not repeated:
+                        repeated = True
+                        o.finalize(nfin_arg)       # the same call again: a no-op
             except Exception as e:
                 lines.append("B finalize-" + exc_name(e))
             if company and count % 7 == 0 and count < 200:
@@ -278,6 +329,8 @@ def canon_trace(spec, nfin, k, max_actions=2000000):
             if ca is None:
                 lines.append("B badaction " + repr(a))
                 continue
+            if journal is not None and len(journal) < 5000:
+                journal.append((len(lines), a))
             lines.append("A " + ca + " | " + flags(o))
             if ca == "EF" and not used_ef:
                 used_ef = True
@@ -294,6 +347,11 @@ def canon_trace(spec, nfin, k, max_actions=2000000):
                 if seen >= k:
                     lines.append(uses_line(o))
                     break
+        if journal:
+            for idx, a in journal:
+                ca = canon_action(a)
+                tail = lines[idx].split(" | ", 1)[1] if " | " in lines[idx] else ""
+                lines[idx] = ("A " + ca + " | " + tail) if ca is not None else ("B badaction " + repr(a))
     return lines
 
 
@@ -318,6 +376,10 @@ def hist_trace(spec, ops):
                     head = "B " + exc_name(e)
             else:
                 kk = int(op[1:])
+                if op[0] == "g":
+                    # the same call with an integer that is not a builtin int (what numpy arithmetic hands a client)
+                    import numpy
+                    kk = (numpy.int64 if kk % 2 == 0 else numpy.int32)(kk) if abs(kk) < 2 ** 31 else numpy.int64(kk)
                 try:
                     o.finalize(kk)
                     head = "f ok"
